@@ -22,7 +22,15 @@ class ADevice(Device):
 
   @property
   def constraints(self):
-    return Device.constraints.fget(self) + self._constraints
+    # User constraints are written for this device's flow vector: hand them the (len,) vector whether the device stands
+    # alone (flat input) or is a child of a DeviceSet (which passes its (1, len) row slice).
+    def wrap(c):
+      w = dict(c)
+      w['fun'] = lambda x, f=c['fun']: f(np.asarray(x).reshape(len(self)))
+      if 'jac' in c:
+        w['jac'] = lambda x, f=c['jac']: f(np.asarray(x).reshape(len(self)))
+      return w
+    return Device.constraints.fget(self) + [wrap(c) for c in self._constraints]
 
   @constraints.setter
   def constraints(self, constraints):
